@@ -131,6 +131,7 @@ func init() {
 			m := Meta{Case: c, Input: in, Key: string(q.JSON()), Trivial: len(d.ConsideredAlternatives) < 2}
 			dmpLine := dmpSX(d)
 			ds := Nums(draws(params.RandomSeed, heurDraws))
+			heurConsideredOrder(o, m, dm, d)
 			o.count("alts=" + itoa(len(d.ConsideredAlternatives)))
 			pol := params.DrawResolution
 			if pol == "" {
